@@ -15,7 +15,7 @@ from .. import namesim
 PROP = "C06"
 LEVEL = "exploration"
 RUNS = {"quick": 2500, "thorough": 100000}
-TIME_CAP = {"quick": 300, "thorough": 1500}
+TIME_CAP = {"quick": 300, "thorough": 900}
 CHUNK = 8          # runs per worker task (cost-aware: keeps the time cap responsive)
 RULE = ("seeded sibling-name multisets at every directory level: AKAI volume and file names over the 41-character alphabet, Roland "
         "volume/performance/sample names over ASCII 0x01-0x7F incl. '/', '\\\\', '..', ':', quotes and control bytes, cue TITLEs with the same; "
